@@ -717,3 +717,282 @@ def sent_anchor_key(repo, tier="quick"):
     if not obs:
         raise AnalysisError("anchor-key scan found no variable holding (None | recipe anchor key) in read_cgsmiles", fi.where())
     return obs
+
+
+# ---------------------------------------------------------------------------
+# PROV.option-forwarding
+# ---------------------------------------------------------------------------
+OPTIONS = ("legacy", "last_all_atom", "all_atom", "smiles_format")
+
+
+def prov_option_forwarding(repo, tier="quick"):
+    """A function that has one of the behavioural options (legacy, all_atom, last_all_atom, smiles_format) as its own
+    parameter (or as self.<option>) does not call a repository function that takes the same option while leaving it at
+    the callee's default: the caller's choice has to reach the callee."""
+    obs = []
+    oid = "PROV.option-forwarding"
+    n_sites = 0
+    for fi in repo.all_functions():
+        if fi.module.name in ("drawing", "drawing_utils", "graph_layout", "graph_layout_utils", "linalg_functions"):
+            continue
+        fl = fi.flow
+        own = {o for o in OPTIONS if o in fi.params}
+        self_opts = set()
+        if fi.cls:
+            init = fi.module.functions.get(fi.cls + ".__init__")
+            if init is not None and not fi.is_staticmethod and not fi.is_classmethod:
+                self_opts = {o for o in OPTIONS if any(d.var == "self." + o for d in init.flow.defs if d.kind == "assign")}
+        if not own and not self_opts:
+            continue
+        for call, nid in fl.calls():
+            t = repo.resolve_call(fi, call)
+            if t.kind not in ("repo", "class") or t.fi is None:
+                continue
+            callee = t.fi
+            cparams = callee.positional_params
+            if callee.cls and not callee.is_staticmethod:
+                cparams = cparams[1:]
+            bound = set(t.bound)
+            for opt in OPTIONS:
+                if opt not in callee.params or opt in bound:
+                    continue
+                if opt not in own and opt not in self_opts:
+                    continue
+                n_sites += 1
+                given = None
+                for kw in call.keywords:
+                    if kw.arg == opt:
+                        given = kw.value
+                if given is None and opt in cparams and len(call.args) > cparams.index(opt):
+                    given = call.args[cparams.index(opt)]
+                has_splat = any(kw.arg is None for kw in call.keywords)
+                if given is None and not has_splat:
+                    obs.append(ob_fail(oid, fi, call, construct="%s(...) without %s=" % (callee.name, opt), instance="%s->%s:%s" % (fi.qualname, callee.name, opt),
+                                       reason="%s has the option %s but calls %s with that option left at its default: the caller's choice is lost" % (fi.qualname, opt, callee.name)))
+                else:
+                    obs.append(ob_ok(oid, fi, call, construct="%s(..., %s=%s)" % (callee.name, opt, ast.unparse(given) if given is not None else "**kwargs"),
+                                     instance="%s->%s:%s" % (fi.qualname, callee.name, opt), reason="the option is passed on explicitly"))
+    if n_sites < 8:
+        raise AnalysisError("option-forwarding scan matched only %d call sites (floor 8)" % n_sites)
+    return obs
+
+
+# ---------------------------------------------------------------------------
+# PROV.hcount-bookkeeping (C01): hydrogen count of both ends when a bond is made
+# ---------------------------------------------------------------------------
+
+def prov_hcount_bookkeeping(repo, tier="quick"):
+    """At bond creation each non-hydrogen end loses 1.5 hydrogens if it is aromatic and 1 otherwise (never below 0).
+    The count is discarded for ordinary atoms later, but pysmiles' aromatic correction reads it: an aromatic atom that is a
+    fragment of its own must not look saturated."""
+    fi = repo.function("resolve:MoleculeResolver.edges_from_bonding_descrpt")
+    fl, cfg = fi.flow, fi.cfg
+    obs = []
+    oid = "PROV.hcount-bookkeeping"
+    stores = []
+    for n in cfg.nodes:
+        if n.kind == "stmt" and isinstance(n.ast, ast.Assign) and isinstance(n.ast.targets[0], ast.Subscript) and \
+                isinstance(n.ast.targets[0].slice, ast.Constant) and n.ast.targets[0].slice.value == "hcount":
+            stores.append(n)
+    if not stores:
+        return [ob_fail(oid, fi, construct="no hcount update at bond creation", instance="update",
+                        reason="the ends of a new bond keep their fragment-level hydrogen counts: pysmiles' aromatic correction sees them as saturated")]
+    for n in stores:
+        v = fl.canon(n.ast.value, n.id)
+        defs = []
+        if v[0] == "var":
+            for d in [fl.defs[i] for i in v[2]]:
+                if d.kind == "assign":
+                    defs.append((d, fl.canon(d.value, d.node)))
+        else:
+            defs.append((None, v))
+        decs = {}
+        for d, t in defs:
+            c = is_call(t, "max")
+            inner = None
+            if c and len(c[0]) == 2 and ("const", 0) in c[0]:
+                inner = [a for a in c[0] if a != ("const", 0)][0]
+            if inner is not None and inner[0] == "binop" and inner[1] == "-" and inner[3][0] == "const":
+                gs = guards_of(fi, d.node) if d is not None else []
+                arom = [pol for tst, pol, g in gs if "aromatic" in ast.unparse(tst)]
+                decs[(arom[0] if arom else None)] = inner[3][1]
+        ok = decs.get(True) == 1.5 and decs.get(False) == 1
+        (obs.append(ob_ok(oid, fi, n.ast, construct="hcount = max(0, hcount - (1.5 if aromatic else 1))", instance="update",
+                          reason="aromatic ends lose 1.5 (their share of the ring bond), other ends 1")) if ok else
+         obs.append(ob_fail(oid, fi, n.ast, construct="hcount decrements by aromaticity: %s" % {str(k): v for k, v in decs.items()}, instance="update",
+                            reason="the hydrogen count of a new bond's ends is not lowered by 1.5 for aromatic and 1 for other atoms "
+                                   "(an aromatic atom that forms a fragment of its own then looks saturated to the aromatic correction)")))
+        # applies to both ends of the bond, skipping hydrogens only
+        loops = enclosing_loops(fi, n.id)
+        inner_loop = loops[0] if loops else None
+        both = False
+        if inner_loop is not None and inner_loop.kind == "for":
+            it = fl.canon(inner_loop.ast.iter, inner_loop.id)
+            both = it[0] == "sub" and it[2] == ("const", 0) and is_call(it[1], "match_bonding_descriptors") is not None
+            if it[0] == "tuple" and len(it[1]) == 2:
+                both = True
+        (obs.append(ob_ok(oid, fi, n.ast, construct="for end in (both ends of the new bond)", instance="both-ends", reason="both atoms are updated")) if both else
+         obs.append(ob_fail(oid, fi, n.ast, construct="hcount update loop", instance="both-ends", reason="the hydrogen count is not updated on both ends of the new bond")))
+    return obs
+
+
+# ---------------------------------------------------------------------------
+# SENT.annotation-value (C14): annotation values are not tested for truth in the dialect parser
+# ---------------------------------------------------------------------------
+
+def sent_annotation_value(repo, tier="quick"):
+    obs = []
+    oid = "SENT.annotation-value"
+    n = 0
+    for fq in ("dialects:_parse_dialect_string", "dialects:check_and_cast_types"):
+        fi = repo.function(fq)
+        fl, cfg = fi.flow, fi.cfg
+        bad = []
+        for sub in ast.walk(fi.node):
+            tested = []
+            if isinstance(sub, (ast.If, ast.While, ast.IfExp)):
+                tested = _truth_tested(sub.test)
+            elif isinstance(sub, ast.BoolOp):
+                for v in sub.values[:-1]:
+                    tested += _truth_tested(v)
+            elif isinstance(sub, ast.UnaryOp) and isinstance(sub.op, ast.Not):
+                tested = _truth_tested(sub.operand)
+            elif isinstance(sub, ast.comprehension):
+                for c in sub.ifs:
+                    tested += _truth_tested(c)
+            for e in tested:
+                owner = cfg.owner.get(id(e))
+                if owner is None:
+                    continue
+                n += 1
+                try:
+                    t = fl.canon(e, owner)
+                except Exception:
+                    continue
+                ev = elem_of(t)
+                is_value = False
+                if ev and ev[0] == "value":
+                    src = show(ev[1])
+                    if "arguments" in src or "kwargs" in src:
+                        is_value = True
+                # comprehension variables: canon may need the comprehension env; fall back on the source shape
+                if isinstance(e, ast.Name):
+                    for comp in ast.walk(fi.node):
+                        if isinstance(comp, ast.comprehension) and any(e is x for c in comp.ifs for x in ast.walk(c)):
+                            if isinstance(comp.target, ast.Tuple) and len(comp.target.elts) == 2 and isinstance(comp.target.elts[1], ast.Name) and \
+                                    comp.target.elts[1].id == e.id and "items" in ast.unparse(comp.iter):
+                                is_value = True
+                if t[0] == "sub" and t[2] == ("const", 1) and method_call(t[1], "split"):
+                    is_value = True
+                if is_value and not any(e is b for b in bad):
+                    bad.append(e)
+        for e in bad:
+            obs.append(ob_fail(oid, fi, e, construct="truth test on the annotation value %s" % ast.unparse(e), instance=fi.qualname,
+                               reason="an annotation value is tested for truth: a weight or charge written as 0 is treated as 'not given' and replaced by the default"))
+        if not bad:
+            obs.append(ob_ok(oid, fi, construct="annotation values are only compared with `is None`", instance=fi.qualname, reason="0 / 0.0 are values"))
+    if n < 3:
+        raise AnalysisError("annotation-value scan saw only %d tested expressions (floor 3)" % n)
+    return obs
+
+
+# ---------------------------------------------------------------------------
+# PROV.fragment-attrs (C14): per-atom annotations are applied after the defaults, so they win
+# ---------------------------------------------------------------------------
+
+def prov_fragment_attrs(repo, tier="quick"):
+    obs = []
+    oid = "PROV.fragment-attrs"
+    for fq, pname in (("pysmiles_utils:read_fragment_smiles", "attributes"), ("cgsmiles_utils:read_fragment_cgsmiles", "attributes")):
+        fi = repo.function(fq)
+        fl, cfg = fi.flow, fi.cfg
+        need(pname in fi.params, "anchor vanished: %s has no parameter %s" % (fq, pname), fi)
+        P = ("param", pname)
+        sets = fl.calls_to("networkx.set_node_attributes")
+        need(sets, "anchor vanished: %s no longer uses nx.set_node_attributes" % fq, fi)
+        user = []
+        defaults = []
+        for call, nid, _ in sets:
+            ct = fl.canon(call, nid)
+            a = list(ct[3]) + [None] * 3
+            if a[1] == P and a[2] is None and "name" not in dict(ct[4]):
+                user.append((call, nid))
+            elif a[1] is not None and a[1][0] == "const":
+                defaults.append((call, nid, a[2]))
+        if not user:
+            obs.append(ob_fail(oid, fi, construct="no set_node_attributes(graph, %s)" % pname, instance=fi.name + ":applied",
+                               reason="the per-atom annotation dict is not written onto the fragment graph with overriding semantics "
+                                      "(annotations written on a fragment atom do not replace the defaults)"))
+            continue
+        ucall, unid = user[0]
+        late = [d for d in defaults if not cfg.path_exists(d[1], unid) or cfg.path_exists(unid, d[1])]
+        every = cfg.must_pass(cfg.entry, {cfg.exit}, {unid}) or all(
+            cfg.nodes[p].kind == "stmt" and isinstance(cfg.nodes[p].ast, ast.Return) and not cfg.path_exists(unid, p) and len(guards_of(fi, p)) > 0
+            for p, lab in cfg.pred[cfg.exit] if not cfg.must_pass(cfg.entry, {p}, {unid}))
+        okk = not late and cfg.must_pass(cfg.entry, {cfg.exit}, {unid})
+        (obs.append(ob_ok(oid, fi, ucall, construct="set_node_attributes(graph, %s) after the defaults, on every path" % pname, instance=fi.name + ":applied",
+                          reason="annotations written on a fragment atom override the defaults (weight 1, fragname ...)")) if okk else
+         obs.append(ob_fail(oid, fi, ucall, construct="set_node_attributes(graph, %s)" % pname, instance=fi.name + ":applied",
+                            reason=("a default is written after the per-atom annotations (%s)" % show(late[0][2]) if late else
+                                    "a path returns the fragment without applying the per-atom annotations"))))
+    return obs
+
+
+# ---------------------------------------------------------------------------
+# OWN.layout-input (C19) and OWN.fresh-fragment (C06, C12)
+# ---------------------------------------------------------------------------
+
+def own_layout_input(repo, tier="quick"):
+    """vespr_layout does not modify the graph it lays out (structure or attributes)."""
+    from .own import effects
+    E = effects(repo)
+    fi = repo.function("graph_layout:vespr_layout")
+    root = ("param", fi.positional_params[0])
+    items = E.effects_on(fi, root)
+    oid = "OWN.layout-input"
+    if items:
+        return [ob_fail(oid, fi, construct="graph mutated at distance %d via %s" % (d, o.split(" ", 1)[1] if " " in o else o), instance="graph",
+                        reason="the layout changes the molecule it is given: %s" % o) for d, o in items[:3]]
+    return [ob_ok(oid, fi, construct="graph argument is read-only in vespr_layout and its callees", instance="graph",
+                  reason="laying a molecule out does not change it (a second layout sees the same bonds)")]
+
+
+def own_fresh_fragment(repo, tier="quick"):
+    """A fragment graph handed out by the fragment readers is a fresh object: it is not (part of) a container passed in, and it
+    is not stored into one (two definitions with the same text must not share one graph)."""
+    from .own import effects
+    E = effects(repo)
+    obs = []
+    oid = "OWN.fresh-fragment"
+    for fq in ("pysmiles_utils:read_fragment_smiles", "cgsmiles_utils:read_fragment_cgsmiles"):
+        fi = repo.function(fq)
+        fl, cfg = fi.flow, fi.cfg
+        S = E.sharing(fi)
+        problems = []
+        rets = [n for n in cfg.nodes if n.kind == "stmt" and isinstance(n.ast, ast.Return) and n.ast.value is not None]
+        ret_terms = []
+        for r in rets:
+            t = fl.canon(r.ast.value, r.id)
+            cands = [t]
+            if t[0] == "var":
+                cands = [fl.canon(d.value, d.node) for d in [fl.defs[i] for i in t[2]] if d.kind == "assign" and not d.path]
+            for c in cands:
+                ret_terms.append(c)
+                for root, (dist, fresh) in S.share(c).items():
+                    if root[0] == "param" and fresh == 0:
+                        problems.append((r.ast, "returns an object taken from its argument %s" % root[1]))
+        # stored into a parameter-rooted container and returned
+        for n in cfg.nodes:
+            if n.kind == "stmt" and isinstance(n.ast, ast.Assign) and isinstance(n.ast.targets[0], ast.Subscript):
+                base = fl.canon(n.ast.targets[0].value, n.id)
+                roots = [r0 for r0 in S.share(base) if r0[0] == "param"]
+                v = fl.canon(n.ast.value, n.id)
+                vc = [v] if v[0] != "var" else [fl.canon(d.value, d.node) for d in [fl.defs[i] for i in v[2]] if d.kind == "assign" and not d.path]
+                if roots and any(x in ret_terms for x in vc):
+                    problems.append((n.ast, "stores the graph it returns into its argument %s" % roots[0][1]))
+        for where, why in problems:
+            obs.append(ob_fail(oid, fi, where, construct=why, instance=fi.name,
+                               reason="the fragment graph is shared with a container that outlives the call: annotating one definition changes another with the same text"))
+        if not problems:
+            obs.append(ob_ok(oid, fi, construct="returned fragment graph is freshly built", instance=fi.name, reason="every definition gets a graph of its own"))
+    return obs
